@@ -81,6 +81,34 @@ def free_port():
     return p
 
 
+def _child_listens(pid, port):
+    want = "%04X" % port
+    inodes = set()
+    for f in ("/proc/net/tcp", "/proc/net/tcp6"):
+        try:
+            with open(f) as fh:
+                next(fh)
+                for line in fh:
+                    p = line.split()
+                    if p[3] == "0A" and p[1].rsplit(":", 1)[1] == want:
+                        inodes.add(p[9])
+        except (OSError, StopIteration):
+            pass
+    if not inodes:
+        return False
+    try:
+        for fd in os.listdir("/proc/%d/fd" % pid):
+            try:
+                t = os.readlink("/proc/%d/fd/%s" % (pid, fd))
+            except OSError:
+                continue
+            if t.startswith("socket:[") and t[8:-1] in inodes:
+                return True
+    except OSError:
+        pass
+    return False
+
+
 _SCRATCH = None
 
 
@@ -158,12 +186,12 @@ class Server:
                 if self.proc.poll() is not None:
                     last = "exited %s" % self.proc.returncode
                     break
-                try:
-                    s = socket.create_connection(("127.0.0.1", self.port), timeout=0.5)
-                    s.close()
+                # The port was free a moment ago, but another worker's child may have taken
+                # it since: a successful connect proves nothing. Wait until OUR child owns
+                # the listening socket (its inode is among the child's descriptors).
+                if _child_listens(self.proc.pid, self.port):
                     return self
-                except OSError:
-                    time.sleep(0.01)
+                time.sleep(0.005)
             else:
                 last = "did not listen in time"
                 self.kill()
